@@ -348,4 +348,8 @@ pub fn run(rep: &mut Report, rng: &mut Rng, thorough: bool) {
     }
     // the `.lzma` / raw writer models in fast mode (Model/LzmaWriter.lean), byte exact
     crate::fastw::run_lzma(rep, &mut rng.fork(), thorough);
+    // the normal-mode encoder model against the real writer, byte for byte (last, so that the strata above keep their
+    // PRNG streams); the optimal parser of the model costs ~15 us per byte in the compiled driver
+    let (n, max_len) = if thorough { (500, 330_000) } else if sweep { (150, 60_000) } else { (45, 12_000) };
+    crate::twin::run_encnormal(rep, &mut rng.fork(), n, max_len);
 }
